@@ -3,7 +3,7 @@
 (* The twenty properties C01..C20 as predicates over explicit state        *)
 (* records; dispatch for the trace spec (CheckStepP) and accumulators.     *)
 (***************************************************************************)
-EXTENDS PropsPanic, PropsRisk
+EXTENDS PropsPanic, PropsRisk, PropsAuth
 
 Acc0 == [c15 |-> C15Acc0, c02 |-> C02Acc0, c07 |-> C07Acc0]
 AccNext(acc, pre, e, post) ==
@@ -28,4 +28,5 @@ CheckStepP(want, pre, e, post, acc, line) ==
   /\ (want["C07"]) => C07(pre, e, post, acc.c07, line)
   /\ (want["C09"]) => C09(pre, e, post, line)
   /\ (want["C13"]) => C13(pre, e, post, line)
+  /\ (want["C08"]) => C08(pre, e, post, line)
 =============================================================================
